@@ -1820,7 +1820,7 @@ fn shape_check(cx: &mut Ctx) {
             json!({"repo": dir, "from_resp_rows": sim.rows.len(), "zero_copy_rows": zc.rows.len(), "translator_rows": lua.rows.len(), "families": sim.families.len(), "problems": [sim.problems, zc.problems, lua.problems]}));
         return;
     }
-    const FIELDS: &[&str] = &["arity", "aerr", "ctor", "slots", "opt", "tail", "opts", "unk", "flits"];
+    const FIELDS: &[&str] = &["arity", "aerr", "ctor", "slots", "opt", "tail", "opts", "unk", "flits", "checks"];
     let by_name = |rows: &[shape::Row]| -> BTreeMap<String, shape::Row> { rows.iter().map(|r| (r.get("name").cloned().unwrap_or_default(), r.clone())).collect() };
     let mut unrecognised: BTreeSet<String> = BTreeSet::new();
     let mut compared = 0u64;
